@@ -196,7 +196,10 @@ def build(rng, nchains=None, with_cal=True, anchor=None, with_rfc=False, algo=1,
     if with_cal:
         p = t + rng.choice([0, 1, 5, 1000, 86400 * 30])
         dirs = cal_dirs(t, p)
-        links = [(d, bytes([1]) + rng.randbytes(32)) for d in dirs]
+        links = []
+        for d in dirs:
+            a = rng.choice([1, 1, 1, 1, 4, 5])       # a left sibling of another algorithm switches the algorithm for the rest of the chain
+            links.append((d, bytes([a]) + rng.randbytes(DLEN[a])))
         s.cal = Cal(p, t if (p != t or rng.random() < 0.5) else None, b"", links)
         a = anchor if anchor is not None else rng.choice(["pub", "auth", None])
         if a == "pub":
